@@ -84,6 +84,36 @@ contract(
 )
 
 
+def _find_two(ex, recv, mname, args):
+    """bounded stand-in: the template defines exactly two blocks (any names, any `required` flags)."""
+    from pyvc.values import HList
+    e = ex.fresh("extends_nodes", ("seq", "any"))
+    b0, b1 = ex.fresh("block0", "any"), ex.fresh("block1", "any")
+    ex.ghost_objs = {"extends": HList(sym=e), "blocks": HList(items=[b0, b1])}
+    return (ex.ghost_objs["extends"], ex.ghost_objs["blocks"])
+
+
+# A second, quantifier-free contract on the same function (bounded: exactly two blocks).  The unbounded contract above
+# proves the same fact for every number of blocks, but when a change breaks it the solver has to *find* a model of the
+# quantified invariants and may give up (undecided); this one has no quantifier, so the counterexample is found and replayed.
+contract(
+    "liquid2.builtin.tags.extends_tag:_stack_blocks#two-blocks",
+    props=["C08"],
+    params={"context": Any_, "template": NODE},
+    obj_fields={"name": "str", "token": "any", "path": "any", "required": "bool"},
+    opaque_methods={"_find_inheritance_nodes": _find_two, "_store_blocks": _store},
+    pre=["ghost_store_init()"],
+    unroll={0: 2},
+    post_internal=["found_blocks()[0].name != found_blocks()[1].name", "ghost('stored') == 1"],
+    raises={"TemplateInheritanceError": None},
+    # ... and only for a reason the property names: a second extends tag or a repeated block name
+    post_exc={"TemplateInheritanceError": ["len(found_extends()) > 1 or found_blocks()[0].name == found_blocks()[1].name",
+                                           "ghost('stored') == 0"]},
+    returns=TupleOf(Opt(NODE), Any_),
+    note="bounded: exactly two blocks in the template (stand-in that yields counterexamples; the unbounded contract is liquid2.builtin.tags.extends_tag:_stack_blocks)",
+)
+
+
 @spec("ghost_store_init", None)
 def _ghost_store_init(ex):
     ex.ghost["stored"] = z3.IntVal(0)
